@@ -11,6 +11,7 @@ mod problems_var;
 mod named;
 mod runproblems;
 mod tagproblem;
+mod userid;
 mod util;
 
 fn main() {
